@@ -117,7 +117,11 @@ def message_built(W, ev, obj, live=None):
     if any(e[0] != "add" for e in evs):
         return False, [], "message object receives calls other than add_field: %s" % [e[:2] for e in evs if e[0] != "add"]
     bbs = [e[3] for e in evs]
-    if not straight_line(ev.fn, bbs):
+    ok_line = straight_line(ev.fn, bbs)
+    if not ok_line and live is not None and not any(ev.fn.in_loop(b) for b in bbs):
+        # under this evaluator's assumptions (one protocol version) only the live paths count: `if is_ietf { add VER }` is unconditional there
+        ok_line = all(values.must_pass(ev.fn, [a], from_block=0, to_blocks={b}, live=live) for a, b in zip(bbs, bbs[1:]))
+    if not ok_line:
         return False, [], "add_field calls are not a straight-line sequence"
     return True, [(e[1], e[2], e[3]) for e in evs], ""
 
@@ -261,7 +265,33 @@ def registrations(ctx, W):
                 a = ev.call_args(bb)
                 opts = W.expand(a[4]) if len(a) > 4 else None
                 names = sorted({callee_name(x[1]) for x in values.subterms(opts) if is_call(x) and "PollOpt" in x[1]}) if opts else []
-                out.append({"fn": f, "bb": bb, "source_ty": t["arg_tys"][1], "token": W.expand(a[2]), "opts": names, "opts_term": opts})
+                rec = {"fn": f, "bb": bb, "source_ty": t["arg_tys"][1], "token": W.expand(a[2]), "opts": names, "opts_term": opts}
+                src = W.expand(a[1])
+                if not any(k in rec["source_ty"] for k in ("UdpSocket", "TcpListener", "Timer")):
+                    # the call was inlined from a generic helper (`source: &E`): the type of the value that is registered says what it is
+                    s0 = values.strip_payload(src)
+                    ty0 = None
+                    if isinstance(s0, tuple) and s0 and s0[0] in ("param", "obj") and s0[1] in W.prog.fns and isinstance(s0[2], int):
+                        ty0 = W.prog.fns[s0[1]].locals[s0[2]]["ty"]
+                    elif is_call(s0) and len(s0) > 3 and s0[3] and s0[3][0] in W.prog.fns:
+                        ct0 = W.prog.fns[s0[3][0]].blocks[s0[3][1]].term
+                        if ct0.get("dst"):
+                            ty0 = W.prog.fns[s0[3][0]].locals[ct0["dst"]["l"]]["ty"]
+                    if ty0 and any(k in ty0 for k in ("UdpSocket", "TcpListener", "Timer")):
+                        rec["source_ty"] = ty0
+                if isinstance(src, tuple) and src and src[0] == "param" and src[1] == f.path and not any(k in rec["source_ty"] for k in ("UdpSocket", "TcpListener", "Timer")):
+                    # a private helper `fn register_readable<E: Evented>(poll, source: &E, token, opts)`: one registration per call of the helper
+                    for (cp, cb) in W.prog.callers(f.path):
+                        cf = W.prog.fns[cp]
+                        ca = W.ev(cp).call_args(cb)
+                        r2 = dict(rec, fn=cf, bb=cb, source_ty=cf.blocks[cb].term["arg_tys"][src[2] - 1])
+                        if isinstance(opts, tuple) and opts and opts[0] == "param" and opts[1] == f.path:
+                            o2 = W.expand(ca[opts[2] - 1])
+                            r2["opts_term"] = o2
+                            r2["opts"] = sorted({callee_name(x[1]) for x in values.subterms(o2) if is_call(x) and "PollOpt" in x[1]})
+                        out.append(r2)
+                    continue
+                out.append(rec)
     return out
 
 
@@ -297,7 +327,12 @@ def batch_loop(ctx, W):
             return {"Add": a + b, "Sub": a - b, "Mul": a * b}[t[1]]
         return None
 
+    from lib import counted_trips
+    ct_ = counted_trips(W, ev, fn, lp) if src is None else None
+
     def iterations(n):
+        if ct_ is not None:
+            return ct_["count"](lambda t: evalt(t, n))
         if src is None:
             return None
         if src[0] == "agg" and str(src[1]).endswith("Range::Range") and len(src[2]) == 2:
@@ -307,4 +342,6 @@ def batch_loop(ctx, W):
             lo, hi = evalt(W.expand(src[2][0]), n), evalt(W.expand(src[2][1]), n)
             return None if lo is None or hi is None else max(hi - lo + 1, 0)
         return None
+    if ct_ is not None:
+        src = ("counted", ct_["init"], ct_["bound"], ct_["op"])
     return {"header": lp["header"], "source": src, "iterations": iterations, "recv": rb, "fn": fn}
